@@ -1,5 +1,5 @@
 """Contracts for xdoctest/utils/util_import.py (C12.syspath, C17)."""
-from pyvc.contracts import contract, record
+from pyvc.contracts import contract, record, LoopSpec
 
 record("PythonPathContext", dpath="str", index="int")
 
@@ -37,9 +37,15 @@ contract("xdoctest.utils.util_import:PythonPathContext.__init__",
          props=["C12"], opts={"native": False})
 
 contract("xdoctest.utils.util_import:split_modpath",
-         params={"modpath": "str", "check": "bool"}, returns="tuple[str,str]", trusted=True,
-         raises={"ValueError?": None},
-         note="T here (file system); its own contract is part of C17")
+         params={"modpath": "str", "check": "bool"}, returns="tuple[str,str]", modifies=[],
+         ensures=[("search-path-directory-is-not-a-package", "not S.fs_exists(S.path_join(result[0], '__init__.py'))")],
+         raises={"ValueError?": "check"},
+         loops={0: LoopSpec(header="exists(join(dpath, '__init__.py'))", types={"_relmod_parts": "list[str]"},
+                            invariants=[("at-least-the-file-name", "len(_relmod_parts) >= 1")],
+                            decreases="S.path_depth(dpath)")},
+         props=["C17"], opts={"native": False},
+         note="the directory returned is the first ancestor that holds no __init__.py: every directory between it and the module does "
+              "(the loop only continues through directories with __init__.py); terminates under the path_depth assumption")
 
 contract("xdoctest.utils.util_import:modpath_to_modname",
          params={"modpath": "str", "hide_init": "bool", "hide_main": "bool", "check": "bool", "relativeto": "Optional[str]"},
@@ -59,3 +65,45 @@ contract("xdoctest.utils.util_import:_custom_import_modpath",
          raises={"RuntimeError?": "sys.path == old(sys.path)", "ValueError?": "sys.path == old(sys.path)"},
          props=["C12", "C17"], opts={"native": False},
          sentinel=("leaks-dpath", "len(sys.path) == len(old(sys.path)) + 1"))
+
+
+# ------------------------------------------------------------------------ C17: name <-> path resolution
+from pyvc.contracts import LoopSpec
+
+contract("xdoctest.utils.util_import:normalize_modpath",
+         params={"modpath": "str", "hide_init": "bool", "hide_main": "bool"}, returns="str", modifies=[],
+         ensures=[("init-main-normalisation", "result == S.normalize_modpath_spec(modpath, hide_init, hide_main)")],
+         props=["C17"], opts={"native": False},
+         sentinel=("identity", "result == modpath"))
+
+_S = "xdoctest.utils.util_import:_syspath_modname_to_modpath."
+contract(_S + "_isvalid",
+         params={"modpath": "str", "base": "str"}, returns="bool", modifies=[],
+         ensures=[("init-chain", "result == S.init_chain(S.path_dirname(modpath), base)")],
+         loops={0: LoopSpec(header="subdir and subdir != base",
+                            invariants=[("chain-so-far", "S.init_chain(S.path_dirname(modpath), base) == S.init_chain(subdir, base)")],
+                            decreases="S.path_depth(subdir)")},
+         props=["C17"], opts={"native": False, "closure": {}, "fuel": 2},
+         sentinel=("always-valid", "result"))
+
+_PKG = "S.path_join(dpath, _fname_we)"
+_ISPKG = ("(S.fs_exists(" + _PKG + ") and S.fs_isfile(S.path_join(" + _PKG + ", '__init__.py')) and "
+          "S.init_chain(S.path_dirname(" + _PKG + "), dpath))")
+_OKJ = ("(S.fs_isfile(S.path_join(dpath, candidate_fnames[j])) and "
+        "S.init_chain(S.path_dirname(S.path_join(dpath, candidate_fnames[j])), dpath))")
+_OKK = _OKJ.replace('[j]', '[k]')
+contract(_S + "check_dpath",
+         params={"dpath": "str", "_fname_we": "str", "candidate_fnames": "list[str]"}, returns="Optional[str]", modifies=[],
+         ensures=[("package-directory-first", "implies(" + _ISPKG + ", result == " + _PKG + ")"),
+                  ("no-candidate-no-result", "implies(not " + _ISPKG + " and all(not " + _OKJ + " for j in range(0, len(candidate_fnames))), result is None)"),
+                  ("else-first-valid-file", "implies(not " + _ISPKG + " and result is not None, "
+                                            "exists(lambda k: 0 <= k and k < len(candidate_fnames) and result == S.path_join(dpath, candidate_fnames[k]) "
+                                            "and " + _OKK + " and all(not " + _OKJ + " for j in range(0, k))))"),
+                  ("some-candidate-some-result", "implies(not " + _ISPKG + " and not all(not " + _OKJ + " for j in range(0, len(candidate_fnames))), "
+                                                 "result is not None)")],
+         loops={0: LoopSpec(header="candidate_fnames",
+                            invariants=[("earlier-candidates-fail", "all(not " + _OKJ + " for j in range(0, _i0))")])},
+         props=["C17"], opts={"native": False, "closure": {"_fname_we": "str", "candidate_fnames": "list[str]"}, "fuel": 1},
+         note="one search-path entry: the package directory (with __init__.py and an unbroken __init__ chain) wins; otherwise the first "
+              "candidate file name, in order, that is a file with an unbroken chain; otherwise nothing",
+         sentinel=("files-before-packages", "implies(S.fs_isfile(S.path_join(dpath, candidate_fnames[0])), result == S.path_join(dpath, candidate_fnames[0]))"))
